@@ -51,4 +51,8 @@ def runRpcs (p : Pub) (arrivals : List (Writer × Rpc)) : Result := run p (event
 def storedSlots (arrivals : List (Writer × Rpc)) : List (Nat × Nat) :=
   (arrivals.filter (fun a => a.2.stored)).map (fun a => (a.1.server, a.1.shnum))
 
+/-- `Publish.publish` / `Publish.update`: "for (server, shnum) in self.goal: writer = writer_class(shnum, …)" —
+    one write proxy per goal entry -/
+def writersOfGoal (goal : List (Nat × Nat)) : List Writer := goal.map (fun e => ⟨e.2, e.1⟩)
+
 end Tahoe.Mutable.Pub
